@@ -835,7 +835,11 @@ impl<'a> Gen<'a> {
                 match self.rng.below(12) {
                     0 => {
                         self.hit("neg");
-                        Expr::Un(UnOp::Neg, Box::new(self.expr(&Ty::Int, d.saturating_sub(1))))
+                        // compiled as `0 - e`: the 0 is already pushed while `e` runs
+                        self.depth += 1;
+                        let a = self.expr(&Ty::Int, d.saturating_sub(1));
+                        self.depth -= 1;
+                        Expr::Un(UnOp::Neg, Box::new(a))
                     }
                     1 if self.tier() >= 1 => {
                         let own_only = self.scrut_mode && self.lambda_depth > 0;
